@@ -1205,4 +1205,43 @@ theorem asmlink_and_dprptr_text (v8 : List (BitVec 8)) (v16 : List (BitVec 16)) 
   · simp only [asmlinkArgs16]; congr 1; funext a; rw [printhexU16, printhexBytes_spec 2 a]
   · simp only [asmlinkArgs32]; congr 1; funext a; rw [printhexU32, printhexBytes_spec 4 a]
 
+/-- the igris parsers invert the libc shims in EVERY base 2..36 and for EVERY value of the type
+    (libc's own atol/atoi read base 10 only): parse(render(v, b), b) = v with `*end` at the terminator -/
+theorem ato_inverse_libc (v32 : BitVec 32) (v64 : BitVec 64) (base : BitVec 8) (hb : 2 ≤ base.toNat ∧ base.toNat ≤ 36)
+    (m : List Byte) (hm : 66 ≤ m.length) :
+    (∃ m', itoa v32 m (base.zeroExtend 16) = some (m', 0) ∧
+        atoi32 m' base = some (v32, (canonInt false base.toNat v32.toInt).length)) ∧
+    (∃ m', utoa v32 m (base.zeroExtend 16) = some (m', 0) ∧
+        atou32 m' 0 base = some (v32, (canonNat false base.toNat v32.toNat).length)) ∧
+    (∃ m', ltoa v64 m (base.zeroExtend 16) = some (m', 0) ∧
+        atoi64 m' base = some (v64, (canonInt false base.toNat v64.toInt).length)) ∧
+    (∃ m', ultoa v64 m (base.zeroExtend 16) = some (m', 0) ∧
+        atou64 m' 0 base = some (v64, (canonNat false base.toNat v64.toNat).length)) := by
+  have e : (base.zeroExtend 16).toNat = base.toNat := by
+    simp [BitVec.zeroExtend_eq_setWidth]; have := base.isLt; omega
+  have hb' : 2 ≤ (base.zeroExtend 16).toNat ∧ (base.zeroExtend 16).toNat ≤ 36 := by rw [e]; exact hb
+  have b32 : (canonInt false base.toNat v32.toInt).length + 1 ≤ 66 :=
+    canonInt_bytes_le_66 false _ hb.1 _ (natAbs_lt32 v32)
+  have b64 : (canonInt false base.toNat v64.toInt).length + 1 ≤ 66 :=
+    canonInt_bytes_le_66 false _ hb.1 _ (natAbs_lt64 v64)
+  have u32 : (canonNat false base.toNat v32.toNat).length + 1 ≤ 66 := by
+    have := digits_length_le_64 base.toNat v32.toNat hb.1 (by have := v32.isLt; omega)
+    rw [canonNat_length]; omega
+  have u64 : (canonNat false base.toNat v64.toNat).length + 1 ≤ 66 := by
+    have := digits_length_le_64 base.toNat v64.toNat hb.1 v64.isLt
+    rw [canonNat_length]; omega
+  refine ⟨?_, ?_, ?_, ?_⟩
+  · have h := itoa_canonical v32 (base.zeroExtend 16) hb' m (by rw [e]; omega)
+    rw [e] at h
+    exact ⟨_, h, by rw [atoi32_canon base hb.1 hb.2, BitVec.ofInt_toInt]⟩
+  · have h := utoa_canonical v32 (base.zeroExtend 16) hb' m (by rw [e]; omega)
+    rw [e] at h
+    exact ⟨_, h, by rw [atou32_canon base hb.1 hb.2]; simp⟩
+  · have h := ltoa_canonical v64 (base.zeroExtend 16) hb' m (by rw [e]; omega)
+    rw [e] at h
+    exact ⟨_, h, by rw [atoi64_canon base hb.1 hb.2, BitVec.ofInt_toInt]⟩
+  · have h := ultoa_canonical v64 (base.zeroExtend 16) hb' m (by rw [e]; omega)
+    rw [e] at h
+    exact ⟨_, h, by rw [atou64_canon base hb.1 hb.2]; simp⟩
+
 end Igris.C07
